@@ -34,3 +34,17 @@ Definition check_ill (c : ill_case) : N :=
             | Ok _ => 4
             end in
   c1 + c4.
+
+(* C20, expressions restricted to some engine kinds, issued with preferred-engine options: the call may legitimately
+   succeed when the operation ends up in an engine that supports it (backtracking or a transfer); otherwise it must be
+   refused with EngineError.  bit 4: it returned a tree in which some operation sits in an engine that does not
+   support its expressions (or is otherwise ill-formed), or raised another class. *)
+Record supp_case := SUPCase { su_prog : mprog; su_impl : result tree }.
+Definition check_supp (c : supp_case) : N :=
+  let c1 := if result_eqb tree_eqb (build_multi (su_prog c)) (su_impl c) then 0 else 1 in
+  let c4 := match su_impl c with
+            | Ok t => if wf_reach t then 0 else 4
+            | Err EngineError => 0
+            | Err _ => 4
+            end in
+  c1 + c4.
